@@ -998,6 +998,11 @@ def eval_tov1(ev, d, obj, tpl, flds, modelled):
     if e3 is not None:
         if not (kind == "info" and (line.endswith(",).") )):
             ev.oracle.append("to_v1 reparse: %s %s: converted line %r raised %s: %s" % (kind, ver, line, type(e3).__name__, e3))
+    else:
+        # the converted line is a line object like any other: writing the parsed object again gives the identical text
+        line2, e4 = call(lambda: back.matchline)
+        if e4 is None and line2 != line:
+            ev.oracle.append("to_v1 fixpoint: %s %s: converted line %r is written again as %r" % (kind, ver, line, line2))
 
 
 def attr_of(obj):
